@@ -348,6 +348,19 @@ func c01(c *core.Ctx) {
 		}
 	}
 	c01time(c)
+	c.Rule("C01.split", "Variant.Decode rebuilds a multi-dimensional array with the step (j-i)/dims[level] — the product of ALL remaining dimensions — in split (C02.loop's obligation on ua.split applies verbatim): any other step agrees for two dimensions and gives a wrong shape or a panic from three on", 1)
+	{
+		tmp := core.NewCtx(c.Prop, c.Tier, c.P)
+		c02(tmp)
+		for _, e := range tmp.Errors {
+			c.Fatal("%s", e)
+		}
+		for _, o := range tmp.Obs {
+			if o.Rule == "C02.loop" && strings.HasPrefix(o.Key, "ua.split·") {
+				c.Ob("C01.split", o.Key, o.Pos, o.OK, o.Detail)
+			}
+		}
+	}
 	c01total(c)
 	c01variant(c)
 	c01closure(c)
@@ -674,8 +687,10 @@ func normByte(t string) string {
 // the wire value is unsigned, `ts - epoch` wraps for such values, and only conversion to a signed type (directly or
 // after a multiplication, which commutes with the wrap) recovers them — an unsigned division, remainder or shift of
 // the wrapped difference does not.
-func c01time(c *core.Ctx) {
-	c.Rule("C01.time", "Buffer.ReadTime and Buffer.WriteTime use the same 1601→1970 epoch offset, and ReadTime applies no unsigned division, remainder or shift to the epoch-shifted value (which wraps for times before 1970) before it is converted to a signed integer", 2)
+func c01time(c *core.Ctx) { c01timeAs(c, "C01.time") }
+
+func c01timeAs(c *core.Ctx, rule string) {
+	c.Rule(rule, "Buffer.ReadTime and Buffer.WriteTime use the same 1601→1970 epoch offset; ReadTime applies no unsigned division, remainder or shift to the epoch-shifted value (which wraps for times before 1970) before it is converted to a signed integer, and WriteTime none to the (negative, for times before 1970) Unix time before the offset was added", 3)
 	rd := fn(c, "ua", "Buffer", "ReadTime")
 	wr := fn(c, "ua", "Buffer", "WriteTime")
 	if rd == nil || wr == nil {
@@ -716,7 +731,7 @@ func c01time(c *core.Ctx) {
 		}
 	}
 	_, _ = rt, wt
-	c.Ob("C01.time", "ua.Buffer·ReadTime ↔ WriteTime epoch offset", c.P.Pos(rd.Pos()), same, "reader: epoch "+fmt.Sprint(re)+" tick "+fmt.Sprint(rt)+"; writer: epoch "+fmt.Sprint(we)+" tick "+fmt.Sprint(wt))
+	c.Ob(rule, "ua.Buffer·ReadTime ↔ WriteTime epoch offset", c.P.Pos(rd.Pos()), same, "reader: epoch "+fmt.Sprint(re)+" tick "+fmt.Sprint(rt)+"; writer: epoch "+fmt.Sprint(we)+" tick "+fmt.Sprint(wt))
 	// the epoch-shifted unsigned value and what is done to it
 	bad := ""
 	n := 0
@@ -768,9 +783,61 @@ func c01time(c *core.Ctx) {
 			walk(sub)
 		}
 	}
-	c.Ob("C01.time", "ua.Buffer·ReadTime arithmetic survives pre-1970 values", c.P.Pos(rd.Pos()), bad == "", "unsigned division / remainder / shift of the epoch-shifted wire value: "+orNone(bad))
+	c.Ob(rule, "ua.Buffer·ReadTime arithmetic survives pre-1970 values", c.P.Pos(rd.Pos()), bad == "", "unsigned division / remainder / shift of the epoch-shifted wire value: "+orNone(bad))
 	_ = n
+	// the writer: the Unix time is negative before 1970; converted to unsigned before the offset is added it wraps,
+	// and a division of the wrapped value is off by centuries
+	wbad := ""
+	for _, b := range wr.Blocks {
+		for _, in := range b.Instrs {
+			call, ok := in.(*ssa.Call)
+			if !ok {
+				continue
+			}
+			cal := ssax.Callee(call)
+			if cal == nil || (cal.Name() != "UnixNano" && cal.Name() != "Unix" && cal.Name() != "UnixMicro" && cal.Name() != "UnixMilli") {
+				continue
+			}
+			seen := map[ssa.Value]bool{}
+			var walk func(v ssa.Value, unsigned bool)
+			walk = func(v ssa.Value, unsigned bool) {
+				if seen[v] {
+					return
+				}
+				seen[v] = true
+				refs := v.Referrers()
+				if refs == nil {
+					return
+				}
+				for _, r := range *refs {
+					switch x := r.(type) {
+					case *ssa.Convert:
+						ct, ok := x.Type().Underlying().(*types.Basic)
+						walk(x, ok && ct.Info()&types.IsUnsigned != 0)
+					case *ssa.BinOp:
+						if x.Op == token.ADD {
+							if k, isK := ssax.ConstInt(x.Y); isK && k > 1e15 {
+								continue // the offset is in: from here on the value is non-negative
+							}
+							if k, isK := ssax.ConstInt(x.X); isK && k > 1e15 {
+								continue
+							}
+						}
+						if unsigned && (x.Op == token.QUO || x.Op == token.REM || x.Op == token.SHR) && x.X == v {
+							wbad = ssax.Path(x) + " at " + pos(c, x)
+						}
+						walk(x, unsigned)
+					case *ssa.Phi:
+						walk(x, unsigned)
+					}
+				}
+			}
+			walk(call, false)
+		}
+	}
+	c.Ob(rule, "ua.Buffer·WriteTime arithmetic survives pre-1970 values", c.P.Pos(wr.Pos()), wbad == "", "unsigned division / remainder / shift of the Unix time before the epoch offset was added: "+orNone(wbad))
 }
+
 
 // c01total: the Variant value writer never writes nothing. Variant.encode hands every leaf of a (possibly nested) slice
 // value to encodeValue, whose type switch knows the built-in types; a value it has no case for — a [][]byte handed over
